@@ -92,3 +92,15 @@ Theorem C11_unknown_code_is_error :
          forall s : nat, s < length (t_aut t) -> dense_action (length (t_aut t)) (t_dense t) s 0 = Error.
 Proof. exact PipelineConds.unknown_code_is_error. Qed.
 Print Assumptions C11_unknown_code_is_error.
+
+From YG Require Import LRBase CompleteDriver LR0Build Resolve PackCore Pipeline PipelineRun Front WfGrammar YParser EndToEnd EndToEndWf.
+Close Scope Z_scope.
+Open Scope nat_scope.
+
+(* from the bytes of the grammar file: column 0, where translate sends every integer that is no token code, is the error action in every state of the emitted matrix *)
+Theorem C11_unknown_code_from_the_text :
+  forall (s : list Ascii.ascii) (b : built) (t : tables),
+         generate_text s = GOk b t ->
+         forall q : nat, q < length (t_aut t) -> dense_action (length (t_aut t)) (t_dense t) q 0 = Error.
+Proof. exact EndToEndWf.text_unknown_code_is_error. Qed.
+Print Assumptions C11_unknown_code_from_the_text.
